@@ -8,4 +8,7 @@ Gen4 == << 1, 2, 3, 4 >>
 MCView == << D, nodes, msgs >>
 NoBlockYet == \A n \in Nodes : Len(Out(n)) < 2
 Bounded == Cardinality(DOMAIN D) <= MaxEvents
+\* sensitivity control (MC_hg2_mutSM.cfg): a "super-majority" of one half (two of them need not
+\* intersect) - TLC must find a counterexample
+MutSM(n) == MaxI(1, n \div 2)
 =============================================================================
